@@ -366,6 +366,16 @@ Ghes_Lay(s) == Ghes_Common(9, s)
 GhesV2_Lay(s) == Ghes_Common(10, s) \o <<N("read_ack_register", s.read_ack_register),
                                          N("read_ack_preserve", s.read_ack_preserve), N("read_ack_write", s.read_ack_write)>>
 
+\* Generic Error Data Entry (ACPI 18.3.2.7.1, revision 0x300): the section type is a 16-byte GUID.  The crate's
+\* public field for it is a u16; the reference zero-extends what the caller can supply.
+SeverityCode == [Recoverable |-> 0, Fatal |-> 1, Correctable |-> 2, None |-> 3]
+GeData_Init(a) == [section_type |-> W(a.section_type, 16), severity |-> SeverityCode[a.severity], revision |-> a.revision,
+                   validation |-> a.validation, flags |-> a.flags, error_data_length |-> a.error_data_length,
+                   fru_id |-> a.fru_id, fru_text |-> a.fru_text, timestamp |-> a.timestamp, data |-> a.data]
+GeData_Lay(s) == <<N("section_type", s.section_type), N("severity", LE(s.severity, 4)), N("revision", s.revision),
+                   N("validation", s.validation), N("flags", s.flags), N("error_data_length", s.error_data_length),
+                   N("fru_id", s.fru_id), N("fru_text", s.fru_text), N("timestamp", s.timestamp), N("data", s.data)>>
+
 ---------------------------------------------------------------------------
 (* RQSC controllers and resources (RISC-V QoS)                             *)
 CtlTypeCode == [Capacity |-> 0, Bandwidth |-> 1]
@@ -414,7 +424,7 @@ SInit(st, a, R) ==
     [] st \in {"aerroot", "aerdev", "aerbridge"} -> AerCommon_Init(a)
     [] st \in {"ghes", "ghesv2"} -> Ghes_Init(a) [] st = "notif" -> Notif_Init(a)
     [] st = "qos" -> Qos_Init(a) [] st = "ecam" -> Ecam_Init(a) [] st = "xent" -> Xent_Init(a)
-    [] st = "gas" -> [g |-> a]
+    [] st = "gas" -> [g |-> a] [] st = "gedata" -> GeData_Init(a)
 
 SCall(st, s, c, R) ==
   CASE st = "gicc" -> Gicc_Call(s, c) [] st = "gicmsi" -> Gicmsi_Call(s, c)
@@ -443,6 +453,7 @@ SLay(st, s) ==
     [] st = "aerroot" -> AerRoot_Lay(s) [] st = "aerdev" -> AerDev_Lay(s) [] st = "aerbridge" -> AerBridge_Lay(s)
     [] st = "ghes" -> Ghes_Lay(s) [] st = "ghesv2" -> GhesV2_Lay(s) [] st = "notif" -> Notif_Lay(s)
     [] st = "qos" -> Qos_Lay(s) [] st = "ecam" -> Ecam_Lay(s) [] st = "xent" -> Xent_Lay(s)
+    [] st = "gedata" -> GeData_Lay(s)
     [] st = "gas" -> <<N("space", <<SpaceCode[s.g.space]>>), N("width", s.g.width), N("offset", s.g.offset),
                        N("access", <<AccessCode[s.g.access]>>), N("addr", s.g.addr)>>
 
